@@ -572,10 +572,9 @@ func checkC25(p *Prog, r *Report) {
 		for _, ci := range callsInFn(pd, pd) {
 			nRec++
 			for _, f := range factsAt(ci) {
-				if bo, ok := f.V.(*ssa.BinOp); ok && bo.Op == token.EQL && f.Val {
-					if tagsOf(bo.X, SliceOpts{})["call:(core.BuildLabel).Parent"] && tagsOf(bo.Y, SliceOpts{})["call:(core.BuildLabel).Parent"] {
-						okRec++
-					}
+				if sameRuleFact(f) {
+					okRec++
+					break
 				}
 			}
 		}
